@@ -137,6 +137,8 @@ type Cluster struct {
 	// DropBecomeLeaderResp: that many BecomeLeader calls are executed by the node but their
 	// response is lost on the way back (the coordinator sees an error)
 	DropBecomeLeaderResp int
+	// RealDisk: see RealDiskNext
+	RealDisk bool
 }
 
 // CutReplicationFrom severs the outgoing replication of a node.
@@ -172,9 +174,15 @@ func (c *Cluster) Heal(name string) {
 	}
 }
 
+// RealDiskNext makes the next cluster keep its databases in real directories (tmpfs) instead of
+// the crash-simulating in-memory filesystem: the snapshot sender and loader of the repository
+// read and write database files through the os package, so only on a real directory does a
+// snapshot carry content. Crashes then keep everything that was written.
+var RealDiskNext bool
+
 func NewCluster(s *vsched.Sched, names []string, syncData bool) *Cluster {
 	kv.VerifMemTableSize = 1 << 20
-	c := &Cluster{S: s, Env: NewEnv(s), Nodes: map[string]*Node{}, Repl: NewNet(), SyncData: syncData, SegSize: 64 * 1024, nextGrp: 10,
+	c := &Cluster{RealDisk: RealDiskNext, S: s, Env: NewEnv(s), Nodes: map[string]*Node{}, Repl: NewNet(), SyncData: syncData, SegSize: 64 * 1024, nextGrp: 10,
 		Isolated: map[string]bool{}, CoordCut: map[string]bool{}, ReplCutFrom: map[string]bool{}}
 	c.Repl.Blocked = func(ownerGrp int, follower string) bool {
 		if c.Isolated[follower] {
@@ -201,7 +209,9 @@ func (c *Cluster) AddNode(name string) *Node {
 	n := &Node{Name: name, Addr: model.Server{Public: name, Internal: name}, c: c}
 	n.dbDir = filepath.Join(c.Env.Dir, name, "db")
 	n.walDir = filepath.Join(c.Env.Dir, name)
-	n.fs = registerFS(n.dbDir)
+	if !c.RealDisk {
+		n.fs = registerFS(n.dbDir)
+	}
 	c.Nodes[name] = n
 	c.Order = append(c.Order, name)
 	c.Cfg.servers[name] = n.Addr
@@ -254,7 +264,9 @@ func (c *Cluster) CrashNode(name string) {
 			st.Break()
 		}
 	}
-	n.fs.SetIgnoreSyncs(true)
+	if n.fs != nil {
+		n.fs.SetIgnoreSyncs(true)
+	}
 	for _, k := range n.kvf.KVs {
 		func() {
 			// databases the node had already closed itself panic on a second Close
@@ -263,8 +275,10 @@ func (c *Cluster) CrashNode(name string) {
 		}()
 	}
 	n.kvf.closed = true
-	n.fs.ResetToSyncedState()
-	n.fs.SetIgnoreSyncs(false)
+	if n.fs != nil {
+		n.fs.ResetToSyncedState()
+		n.fs.SetIgnoreSyncs(false)
+	}
 }
 
 func (c *Cluster) postMortem() {
